@@ -362,7 +362,9 @@ func r09_4(c *RC) {
 			continue
 		}
 		sum, prefix16, out4, tail4 := false, false, false, false
-		instrs(fn, func(_ *ssa.BasicBlock, _ int, in ssa.Instruction) {
+		// (the hash may be computed in a helper shared by both functions)
+		for _, hf := range withHelpers(p, fn, 2) {
+		instrs(hf, func(_ *ssa.BasicBlock, _ int, in ssa.Instruction) {
 			switch x := in.(type) {
 			case *ssa.Call:
 				if calleeID(x) == "crypto/sha256.Sum256" {
@@ -390,6 +392,7 @@ func r09_4(c *RC) {
 				}
 			}
 		})
+		}
 		key := "hint@" + fname
 		if sum && prefix16 && out4 && tail4 {
 			c.OKH(key, fn.Pos(), "SHA-256 over name||nonce[:16]; output[:4] against nonce[len-4:]")
